@@ -188,6 +188,7 @@ std::string hostile(rt::Rng &rng, std::string &cls) {
 
 int main(int argc, char **argv) {
     rt::init(argc, argv);
+    rt::cpuBudgetPerCase(240);   // single-threaded, deterministic: a case that burns 240 s of CPU time does not terminate
     // The library reports every fallback with fprintf(stderr, ...): point the stdio stream elsewhere,
     // but leave file descriptor 2 alone, the sanitizers write their reports to it.
     if (FILE *nul = fopen("/dev/null", "w")) stderr = nul;
